@@ -5281,9 +5281,13 @@ class PyCdlib:
         # the Boot Catalog.
         for rec in self.eltorito_boot_catalog.dirrecords:
             if isinstance(rec, dr.DirectoryRecord):
-                num_bytes_to_remove += self._rm_dr_link(rec)
+                # A name of the Boot Catalog may already have been removed
+                # with rm_hard_link(); its index into the parent is stale then.
+                if rec.parent is not None and any(id(c) == id(rec) for c in rec.parent.children):
+                    num_bytes_to_remove += self._rm_dr_link(rec)
             elif isinstance(rec, udfmod.UDFFileEntry):
-                num_bytes_to_remove += self._rm_udf_link(rec)
+                if rec.parent is not None and any(id(fi_desc.file_entry) == id(rec) for fi_desc in rec.parent.fi_descs):
+                    num_bytes_to_remove += self._rm_udf_link(rec)
             else:
                 # This should never happen.
                 raise pycdlibexception.PyCdlibInternalError('Saw an El Torito record that was neither ISO nor UDF')
